@@ -15,7 +15,8 @@
    RP_RANK among the exported names; disjoint_ids = pre and post commands are
    distinguishable in a trace. *)
 From Coq Require Import ZArith List Bool String.
-From RP Require Import Quote.Model Quote.Proofs Script.Model Script.Oracle Script.Proofs.
+From Coq Require Import Permutation.
+From RP Require Import Common.ZRange Quote.Model Quote.Proofs Script.Model Script.Oracle Script.Proofs Script.Barrier.
 Import ListNotations.
 Open Scope Z_scope.
 
@@ -148,6 +149,60 @@ Theorem C10_rp_env_complete_partial :
     In (SExportQ (B "RP_TASK_SANDBOX") (dq (tsbox_text t))) ep.
 Proof. exact rp_env_complete_partial_lemma. Qed.
 Print Assumptions C10_rp_env_complete_partial.
+
+(* ---- the rank synchronisation (pre_exec_sync): every script terminates ------------------------------- *)
+(* rp_sync_ranks as written: the marker file gets one line per arriving rank (Arrive r), an arrived rank
+   polls until the file has RP_RANKS = n lines (Poll r), nobody removes the file.  A schedule is ANY
+   sequence of these events of the concurrently running ranks; brun n sched b0 is the state after it. *)
+
+(* the marker file is exactly the sequence of arrivals: it never shrinks *)
+Theorem C10_barrier_file_only_grows :
+  forall (n : nat) sched s, b_file (brun n sched s) = b_file s ++ arrivals sched.
+Proof. exact barrier_file_lemma. Qed.
+Print Assumptions C10_barrier_file_only_grows.
+
+(* none passes before all have arrived: at every moment, a rank that has left the synchronisation has
+   arrived and n lines are in the file ... *)
+Theorem C10_barrier_none_passes_early :
+  forall (n : nat) sched r,
+    In r (b_passed (brun n sched b0)) ->
+    In r (arrivals sched) /\ (n <= List.length (arrivals sched))%nat.
+Proof. exact barrier_none_early_lemma. Qed.
+Print Assumptions C10_barrier_none_passes_early.
+
+(* ... so, when each of the ranks 0..n-1 arrives at most once, every rank has arrived by then *)
+Theorem C10_barrier_all_arrived_before_any_passes :
+  forall (n : nat) sched r,
+    NoDup (arrivals sched) -> (forall x, In x (arrivals sched) -> In x (zrange n)) ->
+    In r (b_passed (brun n sched b0)) ->
+    forall k, In k (zrange n) -> In k (arrivals sched).
+Proof. exact barrier_all_arrived_lemma. Qed.
+Print Assumptions C10_barrier_all_arrived_before_any_passes.
+
+(* no rank waits for ever: once n lines are there, after anything else that may happen (later), the next
+   poll of an arrived rank lets it pass *)
+Theorem C10_barrier_no_rank_waits_for_ever :
+  forall (n : nat) sched later r,
+    (n <= List.length (arrivals sched))%nat -> In r (arrivals sched) ->
+    In r (b_passed (brun n (sched ++ later ++ [Poll r]) b0)).
+Proof. exact barrier_next_poll_passes_lemma. Qed.
+Print Assumptions C10_barrier_no_rank_waits_for_ever.
+
+(* for EVERY arrival order (any permutation of the ranks) and any interleaving of polls: one more poll
+   of each rank and all n ranks have passed *)
+Theorem C10_barrier_every_arrival_order :
+  forall (n : nat) order sched,
+    Permutation order (zrange n) -> arrivals sched = order ->
+    forall r, In r (zrange n) -> In r (b_passed (brun n (sched ++ map Poll (zrange n)) b0)).
+Proof. exact barrier_every_order_lemma. Qed.
+Print Assumptions C10_barrier_every_arrival_order.
+
+(* the theorems depend on "nobody removes the marker": in the variant where rank 0 removes it when it
+   leaves, rank 1 (arrived first) never passes, however often it polls *)
+Theorem C10_barrier_with_removal_refuted :
+  forall k, ~ In 1 (b_passed (brun_rm 2 ([Arrive 1; Poll 1; Arrive 0; Poll 0] ++ repeat (Poll 1) k) b0)).
+Proof. exact barrier_with_removal_blocks_lemma. Qed.
+Print Assumptions C10_barrier_with_removal_refuted.
 
 (* ---- non-vacuity: a concrete two-rank task with hostile arguments, a per-rank pre_exec entry,
    a failing post_exec on rank 1; the whole model run (launch + both ranks) satisfies every clause *)
